@@ -195,3 +195,56 @@ Example C03_nonvacuous :
   /\ Forall (fun f => pfx f = "") fs.
 Proof. split; [vm_compute; reflexivity | repeat constructor]. Qed.
 Print Assumptions C03_nonvacuous.
+
+(* The tie to the code for the conflict resolver, as THEOREMS about the regenerated source (harness/translate/ConflictsSrc.py
+   dumps ConflictResolver.get_conflict, _fix_conflict_explicit, _fix_conflict_auto, _conflict_exists and the loop of
+   resolve_and_flatten on every run).  The FieldWrapper objects live in ONE store (key = position in the flat list = the model's
+   identity); a reference is a key; `field_wrapper.option_strings` runs the dump of FieldWrapper.option_strings itself, so these
+   theorems compose with C10_source_is_model.  Proved so far: get_conflict (against the dict-of-lists function get_conflict_fn:
+   insertion order of the option strings, first one held by two references) and _fix_conflict_auto (against Model/OptStr.v
+   fix_auto instantiated with the regenerated facts).  Hypotheses: the references are in range and pairwise distinct (refs_ok:
+   what `assert len(field_wrappers) == len(set(field_wrappers))` checks), and a conflict has at least two holders. *)
+From SPV Require Import Model.MiniPy Gen.FactsConflictsSrc Proofs.MiniPyConflicts.
+Theorem C03_source_get_conflict_refs : forall c fs selfv ids,
+  refs_ok (List.length fs) ids = true ->
+  exists r1, MiniPy.exec_block (gc_env c fs selfv (VL (map VN ids))) get_conflict_src = Ok (r1, Some (enc_conflict (get_conflict_fn c fs ids))).
+Proof. exact get_conflict_refs. Qed.
+Print Assumptions C03_source_get_conflict_refs.
+
+Theorem C03_source_get_conflict_wrappers : forall c fs selfv gs,
+  refs_ok (List.length fs) (List.concat gs) = true ->
+  exists r1, MiniPy.exec_block (gc_env c fs selfv (VL (map enc_group gs))) get_conflict_src
+             = Ok (r1, Some (enc_conflict (get_conflict_fn c fs (List.concat gs)))).
+Proof. exact get_conflict_groups. Qed.
+Print Assumptions C03_source_get_conflict_wrappers.
+
+Theorem C03_source_fix_auto_is_model : forall c fs selfv o ids,
+  refs_ok (List.length fs) ids = true -> 2 <= List.length ids ->
+  final_store (MiniPy.exec_block (fa_env c fs selfv o ids) fix_conflict_auto_src)
+  = match fix_auto auto_index_gen exhausted_err_gen skip_first_strict_gen fs ids with
+    | Ok fs' => Ok (store c fs')
+    | Err e => Err (enc_err e)
+    end.
+Proof. exact fix_auto_is_model. Qed.
+Print Assumptions C03_source_fix_auto_is_model.
+
+(* the loop of resolve_and_flatten, as a term over the dumped methods (a syntactic pin: the semantic composition is still open) *)
+Theorem C03_source_loop_skeleton :
+  resolve_src =
+  [gc_call "conflict" (EVar "wrappers_flat");
+   SAssign "cur_attempts" (ENat 0);
+   SWhile resolver_max_attempts (EVar "conflict")
+     [SIf (mode_is "ConflictResolution.NONE") [SRaise "ConflictResolutionError"]
+        [SIf (mode_is "ConflictResolution.EXPLICIT") [fix_call fix_conflict_explicit_src]
+           [SIf (mode_is "ConflictResolution.ALWAYS_MERGE") [SRaise "MergeNotModelled"]
+              [SIf (mode_is "ConflictResolution.AUTO") [fix_call fix_conflict_auto_src] []]]];
+      gc_call "conflict" (EVar "wrappers_flat");
+      SAssign "cur_attempts" (EAdd (EVar "cur_attempts") (ENat 1));
+      SIf (EEq (EVar "cur_attempts") (EAttr (EVar "self") "max_attempts")) [SRaise "ConflictResolutionError"] []];
+   SCallRet "result of self._conflict_exists" conflict_exists_src
+     [("FIELDS", EVar "FIELDS"); ("self", EVar "self"); ("all_wrappers", EVar "wrappers_flat")] [];
+   SAssert (ENot (EVar "result of self._conflict_exists"));
+   SReturn (EVar "wrappers_flat")]
+  /\ resolver_max_attempts = max_attempts_gen.
+Proof. exact resolve_skeleton. Qed.
+Print Assumptions C03_source_loop_skeleton.
